@@ -1,0 +1,55 @@
+//go:build verif
+
+package erc20
+
+// Contracts for the deductive checker in /verif (comment-only; compiled only with -tags verif).
+
+/*@
+// ---- C19: erc20 genesis export / import
+func ExportGenesis
+    requires inv: tp_inv(tp_has, tp_val)
+    ensures nonnil: result != nil
+    ensures params: result.Params.EnableErc20 == e20_enable && result.Params.EnableEVMHook == e20_hook
+    ensures pairs: result.TokenPairs == tp_list(tp_has, tp_val)
+    ensures canonical: tp_canon(result.TokenPairs)
+
+// importing stores the flags, every pair under its id, and both index entries of every pair
+func InitGenesis
+    maypanic
+    modifies e20_enable, e20_hook, tp_has, tp_val, am_has, am_val, dm_has, dm_val
+    requires inv: tp_inv(tp_has, tp_val)
+    ensures params: e20_enable == data.Params.EnableErc20 && e20_hook == data.Params.EnableEVMHook
+    ensures pairs: tp_has == tp_ins_has(old(tp_has), data.TokenPairs, len(data.TokenPairs))
+            && tp_val == tp_ins_val(old(tp_val), data.TokenPairs, len(data.TokenPairs))
+    ensures denom_index: dm_has == dm_ins_has(old(dm_has), data.TokenPairs, len(data.TokenPairs))
+            && dm_val == dm_ins_val(old(dm_val), data.TokenPairs, len(data.TokenPairs))
+    ensures erc20_index: am_has == am_ins_has(old(am_has), data.TokenPairs, len(data.TokenPairs))
+            && am_val == am_ins_val(old(am_val), data.TokenPairs, len(data.TokenPairs))
+    ensures inv: tp_inv(tp_has, tp_val)
+    loop 1 invariant idx: 0 <= #i && #i <= len(data.TokenPairs)
+    loop 1 invariant params: e20_enable == data.Params.EnableErc20 && e20_hook == data.Params.EnableEVMHook
+    loop 1 invariant pairs: tp_has == tp_ins_has(old(tp_has), data.TokenPairs, #i) && tp_val == tp_ins_val(old(tp_val), data.TokenPairs, #i)
+    loop 1 invariant denom_index: dm_has == dm_ins_has(old(dm_has), data.TokenPairs, #i) && dm_val == dm_ins_val(old(dm_val), data.TokenPairs, #i)
+    loop 1 invariant erc20_index: am_has == am_ins_has(old(am_has), data.TokenPairs, #i) && am_val == am_ins_val(old(am_val), data.TokenPairs, #i)
+    loop 1 invariant inv: tp_inv(tp_has, tp_val)
+
+// ---- C19 round trip (ghost compositions in zz_roundtrip_verif.go)
+// a fresh chain has empty pair and index stores
+func verifFreshChain
+    trusted
+    modifies e20_enable, e20_hook, tp_has, tp_val, am_has, am_val, dm_has, dm_val
+    ensures tp_has == tp_none() && dm_has == dm_none() && am_has == am_none()
+func verifReimport
+    maypanic
+    modifies e20_enable, e20_hook, tp_has, tp_val, am_has, am_val, dm_has, dm_val
+    requires inv: tp_inv(tp_has, tp_val)
+    ensures same_state: e20_enable == old(e20_enable) && e20_hook == old(e20_hook) && tp_same(tp_has, tp_val, old(tp_has), old(tp_val))
+    // the two index maps are not exported: they are rebuilt from the exported pairs (domains shown; values: see REPORT)
+    ensures same_index_domains: dm_has == dm_ins_has(dm_none(), tp_list(old(tp_has), old(tp_val)), len(tp_list(old(tp_has), old(tp_val))))
+            && am_has == am_ins_has(am_none(), tp_list(old(tp_has), old(tp_val)), len(tp_list(old(tp_has), old(tp_val))))
+func verifReexport
+    maypanic
+    modifies e20_enable, e20_hook, tp_has, tp_val, am_has, am_val, dm_has, dm_val
+    requires canonical: tp_canon(g.TokenPairs)
+    ensures same_document: result != nil && result.Params == g.Params && seqeq(result.TokenPairs, g.TokenPairs)
+@*/
